@@ -20,10 +20,13 @@ CHECKS = {
             'state invariant (canonicity incl. semantic distinctness) in every BFS state; every function '
             'of n<=3 (4 thorough) variables built by 10 routes must give the same integer',
             'DESIGN.md 2/C02'),
-    'C03': (EX[0], EX[1], 'all functions x all subsets x both quantifiers x orders x contexts x entry '
-            'points', 'DESIGN.md 2/C03'),
-    'C04': (EX[0], EX[1], 'all functions x all partial assignments x all variable maps x single '
-            'replacements from F(3) x tuples from family G', 'DESIGN.md 2/C04'),
+    'C03': (EX[0], EX[1] + ' + explicit-state BFS over mixed-operation histories',
+            'all functions x all subsets x both quantifiers x orders x contexts x entry points; wide '
+            'managers; BFS over histories mixing connectives, ite, quantifiers, let, collections, swaps',
+            'DESIGN.md 2/C03'),
+    'C04': (EX[0], EX[1] + ' + explicit-state BFS over mixed-operation histories',
+            'all functions x all partial assignments x all variable maps x single replacements from F(3) x '
+            'tuples from family G; wide managers; BFS over mixed-operation histories', 'DESIGN.md 2/C04'),
     'C05': (EX[0], 'bounded-exhaustive enumeration of programs (formulas) of the documented grammar, each '
             'parsed by the real add_expr and compared with an independent precedence-climbing evaluator',
             'every ordered pair of binary spellings x 8 shapes, chains, binders at every position, ite, '
